@@ -2,6 +2,7 @@
    of ts-rs (macros/src/types/*.rs, ts-rs/src/lib.rs).  The printer never inserts parentheses, as
    the code never does.  Definitions only. *)
 From TsRs Require Import Base.Str.
+From Coq Require Import ZArith.
 
 (* a property head: everything of a property except its type *)
 Record phead := {
@@ -32,16 +33,37 @@ Inductive tsty :=
 | TParen (t : tsty)                        (* (T) *)
 | TLit (s : str)                           (* "abc" (no escaping) *)
 | TRaw (text : str)                        (* #[ts(type = "..")] *)
-| TMerged (t : tsty)                       (* `.replace(" } & { ", " ")` applied to the text of t *)
+| TMerged (t : tsty)                       (* the operands of an intersection, object literals merged where they meet *)
 | TUnwrap (t : tsty).                      (* first `(` / last `)` stripped, trimmed (single flattened field) *)
 
 Definition s_merge_pat : str := lit " } & { ".
+
+(* named.rs: an operand that begins with an object literal is merged into the object literal the text ends
+   with (`{ a: A, } & { b: B, }` becomes `{ a: A, b: B, }`); other operands are joined with ` & `.  Only the
+   operands are joined this way, the text inside an operand is left as it is. *)
+Fixpoint glue_from (acc : str) (ops : list str) : str :=
+  match ops with
+  | [] => acc
+  | o :: r => glue_from (if starts_with (lit "{ ") o && ends_with (lit " }") acc
+                         then removelast acc ++ skipn 2 o
+                         else acc ++ lit " & " ++ o) r
+  end.
+Definition glue (ops : list str) : str :=
+  match ops with [] => lit "{  }" | x :: r => glue_from x r end.
 Definition sp : char := 32.
 Definition is_sp_ws (c : char) : bool := is_whitespace c.
 
-(* `if s.starts_with('(') && s.ends_with(')') { s[1..s.len()-1].trim() } else { s.trim() }` *)
+(* the first parenthesis of the text closes at its end: every prefix but the whole text is inside it *)
+Fixpoint parens_wrap (depth : Z) (s : str) : bool :=
+  match s with
+  | [] => true
+  | c :: r => let d := if c =? 40 then (depth + 1)%Z else if c =? 41 then (depth - 1)%Z else depth in
+              ((0 <? d)%Z || match r with [] => true | _ => false end) && parens_wrap d r
+  end.
+
+(* named.rs, a lone flattened field: parentheses around the whole text are dropped *)
 Definition unwrap_text (s : str) : str :=
-  if starts_with [40] s && ends_with [41] s
+  if starts_with [40] s && ends_with [41] s && parens_wrap 0 s
   then trim_chars is_sp_ws (removelast (tl s))
   else trim_chars is_sp_ws s.
 
@@ -70,7 +92,7 @@ Fixpoint print (t : tsty) : str :=
   | TParen t => lit "(" ++ print t ++ lit ")"
   | TLit s => [34] ++ s ++ [34]
   | TRaw s => s
-  | TMerged t => replace s_merge_pat [sp] (print t)
+  | TMerged t => match t with TInter l => glue (map print l) | _ => print t end
   | TUnwrap t => unwrap_text (print t)
   end.
 End Print.
